@@ -196,7 +196,7 @@ class MinGenSet():
                 self.genset_vars[i]
                 for i in self.genset_indexes
             )
-            == self.total,
+            == float(self.total),
             name=f"total",
         )
 
@@ -233,7 +233,7 @@ class MinGenSet():
                     self.pi_vars[(i, j)]
                     for i in self.genset_indexes
                 )
-                == self.numbers[j],
+                == float(self.numbers[j]),
                 name=f"sum_pi_j={j}",
             )
 
@@ -313,7 +313,7 @@ class MinGenSet():
                         pi_y_vars[(i, j, c)]
                         for i in range(k)
                     )
-                    == constraint[j],
+                    == float(constraint[j]),
                     name=f"subset_sum_constr={c}_subset_j={j}",
                 )
                 
